@@ -306,9 +306,10 @@ def run_c16(tier, out):
             if name.startswith('placement:') and rinfo['operations']:
                 rules[name] = [(p, m) for m, p in rinfo['operations']]
     names = sorted(rules)
-    if tier == 'quick':
+    if tier == 'quick' and not broken:
         rng = random.Random(common.seed())
         names = sorted(rng.sample(names, min(8, len(names))))
+    # (a broken proof or translator: every rule is probed, to find the failing operation)
     for name in names:
         app = impl.App(policy_rules={name: 'role:member'})
         # populate with the default policy semantics: the service role satisfies every other rule; the overridden
